@@ -20,9 +20,27 @@ static int c09j() {
     return 0;
 }
 
+// F11: a parallel duplicate edge hides a face from find_halfface(vertices): the two-stage lookup takes the FIRST halfedge
+// v0->v1 (find_halfedge) and only looks at the halffaces around that one
+static int f11() {
+    TopologyKernel m;
+    for (int i = 0; i < 3; ++i) m.add_vertex();
+    VertexHandle v0(0), v1(1), v2(2);
+    m.add_edge(v0, v1);                       // e0: a first edge v0-v1, used by no face
+    EdgeHandle e1 = m.add_edge(v0, v1, true); // e1: parallel duplicate (explicitly allowed)
+    EdgeHandle e2 = m.add_edge(v1, v2), e3 = m.add_edge(v2, v0);
+    FaceHandle f = m.add_face({m.halfedge_handle(e1, 0), m.halfedge_handle(e2, 0), m.halfedge_handle(e3, 0)}, true);
+    HalfFaceHandle got = m.find_halfface(std::vector<VertexHandle>{v0, v1, v2});
+    bool holds = f.is_valid() && got == m.halfface_handle(f, 0);
+    std::printf("%s face=%d find_halfface(v0,v1,v2)=%d (required: %d, the halfface of the face on exactly these vertices in this order)\n",
+                holds ? "NOT-REPRODUCED" : "REPRODUCED", f.idx(), got.idx(), 2 * f.idx());
+    return 0;
+}
+
 int main(int argc, char** argv) {
     if (argc < 2) { std::fprintf(stderr, "usage: probes <id>\n"); return 2; }
     if (!std::strcmp(argv[1], "C09J")) return c09j();
+    if (!std::strcmp(argv[1], "F11")) return f11();
     std::fprintf(stderr, "unknown probe %s\n", argv[1]);
     return 2;
 }
